@@ -1,6 +1,7 @@
 from __future__ import annotations
 
 import asyncio
+import functools
 import json
 import os
 from collections.abc import MutableMapping, MutableSequence
@@ -32,6 +33,20 @@ def _load_keys(
     for key in keys or ["params"]:
         row[key] = json.loads(row[key])
     return row
+
+
+def _serialized(func):
+    """Run a cached getter (SELECT, then the insertion into the cache) or an update (UPDATE, then the
+    invalidation of the cache) without interleaving with the others. Otherwise a row selected before a
+    concurrent UPDATE can be inserted into the cache after the update has invalidated it.
+    """
+
+    @functools.wraps(func)
+    async def wrapper(self, *args, **kwargs):
+        async with self._cache_lock:
+            return await func(self, *args, **kwargs)
+
+    return wrapper
 
 
 class SqliteConnection:
@@ -94,6 +109,7 @@ class SqliteDatabase(CachedDatabase):
         timeout: int = 20,
     ):
         super().__init__(context)
+        self._cache_lock: asyncio.Lock = asyncio.Lock()
         # Open connection to database
         if connection != IN_MEMORY_SQLITE_CONNECTION:
             connection = (
@@ -333,6 +349,7 @@ class SqliteDatabase(CachedDatabase):
                 return await cursor.fetchall()
 
     @cached(cache=lambda self: self.deployment_cache, postprocess=postprocess_deepcopy)
+    @_serialized
     async def get_deployment(self, deployment_id: int) -> MutableMapping[str, Any]:
         async with self.connection as db:
             async with db.execute(
@@ -361,6 +378,7 @@ class SqliteDatabase(CachedDatabase):
                 return await cursor.fetchall()
 
     @cached(cache=lambda self: self.filter_cache, postprocess=postprocess_deepcopy)
+    @_serialized
     async def get_filter(self, filter_id: int) -> MutableMapping[str, Any]:
         async with self.connection as db:
             async with db.execute(
@@ -409,6 +427,7 @@ class SqliteDatabase(CachedDatabase):
                 return await cursor.fetchall()
 
     @cached(cache=lambda self: self.port_cache, postprocess=postprocess_deepcopy)
+    @_serialized
     async def get_port(self, port_id: int) -> MutableMapping[str, Any]:
         async with self.connection as db:
             async with db.execute(
@@ -463,6 +482,7 @@ class SqliteDatabase(CachedDatabase):
                     return list(result.values())
 
     @cached(cache=lambda self: self.step_cache, postprocess=postprocess_deepcopy)
+    @_serialized
     async def get_step(self, step_id: int) -> MutableMapping[str, Any]:
         async with self.connection as db:
             async with db.execute(
@@ -471,6 +491,7 @@ class SqliteDatabase(CachedDatabase):
                 return _load_keys(dict(await cursor.fetchone()))
 
     @cached(cache=lambda self: self.target_cache, postprocess=postprocess_deepcopy)
+    @_serialized
     async def get_target(self, target_id: int) -> MutableMapping[str, Any]:
         async with self.connection as db:
             async with db.execute(
@@ -479,6 +500,7 @@ class SqliteDatabase(CachedDatabase):
                 return _load_keys(dict(await cursor.fetchone()))
 
     @cached(cache=lambda self: self.token_cache, postprocess=postprocess_deepcopy)
+    @_serialized
     async def get_token(self, token_id: int) -> MutableMapping[str, Any]:
         async with self.connection as db:
             async with db.execute(
@@ -553,6 +575,7 @@ class SqliteDatabase(CachedDatabase):
                 ) as cursor:
                     return await cursor.fetchall()
 
+    @_serialized
     async def update_deployment(
         self, deployment_id: int, updates: MutableMapping[str, Any]
     ) -> int:
@@ -578,6 +601,7 @@ class SqliteDatabase(CachedDatabase):
             ):
                 return execution_id
 
+    @_serialized
     async def update_filter(
         self, filter_id: int, updates: MutableMapping[str, Any]
     ) -> int:
@@ -591,6 +615,7 @@ class SqliteDatabase(CachedDatabase):
                 self.filter_cache.pop(filter_id, None)
                 return filter_id
 
+    @_serialized
     async def update_port(self, port_id: int, updates: MutableMapping[str, Any]) -> int:
         async with self.connection as db:
             async with db.execute(
@@ -602,6 +627,7 @@ class SqliteDatabase(CachedDatabase):
                 self.port_cache.pop(port_id, None)
                 return port_id
 
+    @_serialized
     async def update_step(self, step_id: int, updates: MutableMapping[str, Any]) -> int:
         async with self.connection as db:
             async with db.execute(
@@ -613,6 +639,7 @@ class SqliteDatabase(CachedDatabase):
                 self.step_cache.pop(step_id, None)
                 return step_id
 
+    @_serialized
     async def update_target(
         self, target_id: int, updates: MutableMapping[str, Any]
     ) -> int:
